@@ -6,7 +6,7 @@ oracle reads the request log (stamped with the scheduler's logical time) and the
  (ii)  stateful: requests per scenario <= stateful_step_count
  (iii) yielded failed/errored scenarios <= max_failures, and every later phase is SKIP with reason "failure limit reached"
  (iv)  after the stop request (logical time T of stop_event.set()): no ScenarioStarted is yielded, <= 1 request per worker
- (v)   unique_inputs: no two equal requests to one operation within a unit phase
+ (v)   unique_inputs: no two equal requests to one operation within the unit phases; stateful: within one sequence
  (vi)  rate limit: see props/c12_rate.py items (virtual clock), merged into this check
 """
 
@@ -27,7 +27,7 @@ RULE = (
     "the real engine; distinct = distinct (item, request sequence, event sequence); non-trivial = a limit was actually reached or a stop was requested"
 )
 BOUNDS = {
-    "quick": {"preemptions": 1, "env_deviations": 1, "total_deviations": 1, "max_examples": [1, 2, 3], "steps": [1, 2], "max_exec_per_item": 1500},
+    "quick": {"preemptions": 1, "env_deviations": 1, "total_deviations": 1, "max_examples": [1, 2, 3], "steps": [1, 2], "steps_review_round_2": [3], "max_exec_per_item": 1500},
     "thorough": {"preemptions": 2, "env_deviations": 1, "total_deviations": 2, "max_examples": [1, 2, 5], "steps": [1, 2, 3], "max_exec_per_item": 20000},
 }
 BUDGET_S = {"quick": 140, "thorough": 3300}
@@ -83,6 +83,7 @@ def items(tier: str, seed: int) -> list[dict]:
     add(unique=True, max_examples=4, e=0)
     add(unique=True, max_examples=4, workers=1, e=0, doc="unit2", phases=["coverage", "fuzzing"])
     add(cof=True, behaviour="fail:/b", max_examples=3, e=0)
+    _review_round_2(add, out, tier)
     from props import c12_rate
 
     out.extend(c12_rate.items(tier))
@@ -91,6 +92,45 @@ def items(tier: str, seed: int) -> list[dict]:
         add(workers=3, behaviour="all500", max_failures=1, e=0)
         add(unique=True, max_examples=5, workers=2, e=0, doc="unit2", phases=["examples", "coverage", "fuzzing"])
     return out
+
+
+def _review_round_2(add: Any, out: list, tier: str) -> None:
+    """Bound clauses x configurations the first version left out (one worker / no pre-emption where the clause is not about
+    interleaving; e=0 unless the clause is the stop request)."""
+    all_unit = ["examples", "coverage", "fuzzing"]
+    # (i) max_examples per operation IN THE FUZZING PHASE when other phases run before it (requests are attributed to the
+    #     phase by logical time); documents with one operation; an operation whose only failing response is ... another one's
+    add(doc="unit3", phases=all_unit, workers=1, max_examples=2, e=0, p=0)
+    add(doc="unit3", phases=all_unit, workers=2, max_examples=3, e=0, p=0, behaviour="fail:/b")
+    add(doc="one_a", workers=2, max_examples=3, e=0)
+    add(doc="unit3", workers=1, max_examples=3, e=0, p=0, modes=["positive", "negative"])
+    add(doc="one_b", workers=1, max_examples=3, e=0, p=0)
+    # (ii) stateful step count: one more step than the longest chain of links; after other phases; with a failing API
+    add(doc="link", phases=["stateful"], workers=1, max_examples=3, steps=3, e=0)
+    add(doc="link", phases=["fuzzing", "stateful"], workers=1, max_examples=2, steps=1, e=0, p=0)
+    add(doc="link", phases=["stateful"], workers=1, max_examples=3, steps=3, e=0, p=0, behaviour="fail_linked_user")
+    # (iii) failure limit reached by the LAST operation (a later phase is skipped) / in the LAST phase (nothing left to skip) /
+    #       exactly by the second failure / with continue_on_failure / by an exception of a check instead of the transport
+    add(doc="unit3", phases=["coverage", "fuzzing"], workers=1, behaviour="fail:/c", max_failures=1, e=0, p=0)
+    add(doc="unit3", phases=["coverage", "fuzzing"], workers=1, behaviour="fail:/c", max_failures=2, e=0, p=0)
+    add(doc="unit3", phases=["coverage", "fuzzing"], workers=1, behaviour="all500", max_failures=1, cof=True, e=0, p=0, max_examples=2)
+    add(doc="unit3", phases=["coverage", "fuzzing"], workers=1, max_failures=1, e=0, p=0,
+        fault={"stage": "check", "kind": "RuntimeError", "path": "/b", "k": 1, "persistent": True})
+    add(doc="link", phases=[*all_unit, "stateful"], workers=1, behaviour="fail_linked_user", max_failures=1, e=0, p=0)
+    add(doc="link", phases=[*all_unit, "stateful"], workers=1, behaviour="fail_get_user", max_failures=2, e=0, p=0)
+    # (iv) stop requests while SEVERAL phases are still to come, and in the middle of a stateful sequence that has steps left
+    #      (the latter needs a pre-emption - the consumer runs while the sequence is between two steps - AND the stop)
+    add(doc="unit2", phases=["coverage", "fuzzing"], workers=1, max_examples=2)
+    add(doc="link", phases=["fuzzing", "stateful"], workers=1, max_examples=2)
+    out.extend(ee.sharded({"doc": "link", "phases": ["stateful"], "workers": 1, "max_failures": None, "cof": False, "behaviour": "ok",
+                           "fault": None, "p": 1, "e": 1, "max_examples": 2, "steps": 3, "unique": False, "total": 2, "ctrl_c": False}, 8))
+    # (v) unique inputs in a stateful sequence; with a failing / continued operation (the cached outcome is a failure)
+    add(doc="link", phases=["stateful"], workers=1, max_examples=3, steps=3, unique=True, e=0, p=0)
+    add(doc="unit2", phases=all_unit, workers=1, max_examples=3, unique=True, behaviour="fail:/b", e=0, p=0)
+    add(doc="unit2", phases=["coverage", "fuzzing"], workers=2, max_examples=3, unique=True, behaviour="all500", cof=True, e=0, p=0)
+
+
+_PHASE_EVENT_NAME = {"examples": "EXAMPLES", "coverage": "COVERAGE", "fuzzing": "FUZZING", "stateful": "STATEFUL_TESTING"}
 
 
 def _phase_name(event: Any) -> str:
@@ -123,17 +163,33 @@ def judge(item: dict, run: Any, r: Any, res: Result, current_item: dict) -> None
         failing_ops = {"*"}
     elif item["behaviour"].startswith("fail:"):
         failing_ops = {"GET " + item["behaviour"][5:]}
-    elif item["behaviour"] == "fail_get_user":
+    elif item["behaviour"] in ("fail_get_user", "fail_linked_user"):
         failing_ops = {"GET /users/{id}"}
+    elif item["behaviour"] != "ok":
+        raise AssertionError(f"behaviour {item['behaviour']!r}: say which operations it makes fail")
     if item.get("fault"):
         # an operation hit by the injected fault errors (Hypothesis replays it): exempt like one with a failing check
         failing_ops |= {op for op in ("GET /a", "GET /b", "GET /c", "POST /users", "GET /users/{id}")
                         if op.split(" ", 1)[1].startswith(item["fault"].get("path") or "/")}
     reached = False
-    # (i) max_examples in fuzzing (only when fuzzing is the only phase, so every logged request belongs to it)
+    # (i) max_examples in fuzzing.  When fuzzing is the only phase every logged request belongs to it; otherwise a request
+    # belongs to it when it was put on the wire between the moments PhaseStarted(FUZZING) and PhaseFinished(FUZZING) were
+    # yielded (the phase's workers are started after the first and joined before the second)
+    window = None
     if item["phases"] == ["fuzzing"]:
+        window = (-1, float("inf"))
+    elif "fuzzing" in item["phases"] and env is None:
+        t0 = [t for e, n, t in zip(events, names, r.event_times) if n == "PhaseStarted" and _phase_name(e) == "FUZZING"]
+        t1 = [t for e, n, t in zip(events, names, r.event_times) if n == "PhaseFinished" and _phase_name(e) == "FUZZING"]
+        if len(t0) == 1 and len(t1) == 1:
+            window = (t0[0], t1[0])
+    if window is not None:
+        if len(item["phases"]) > 1:
+            res.count("r2_fuzzing_requests_counted_in_a_run_of_several_phases")
         per_op: dict[str, int] = {}
         for x in r.exchanges:
+            if not window[0] < x.time <= window[1]:
+                continue
             per_op[_operation_of(item["doc"], x)] = per_op.get(_operation_of(item["doc"], x), 0) + 1
         for op, n in per_op.items():
             if "*" in failing_ops or op in failing_ops:
@@ -161,6 +217,10 @@ def judge(item: dict, run: Any, r: Any, res: Result, current_item: dict) -> None
         if len(failed) >= item["max_failures"] and env is None:
             # phase in which the limit was reached = phase of the max_failures-th failed scenario
             limit_phase = _phase_name(failed[item["max_failures"] - 1])
+            if len(item["phases"]) > 1 and limit_phase == _PHASE_EVENT_NAME[item["phases"][-1]]:
+                res.count("r2_failure_limit_reached_in_the_last_of_several_phases")
+            elif len(item["phases"]) > 1 and len(failed) == item["max_failures"] and failed[-1].label == {"unit3": "GET /c", "unit2": "GET /b"}.get(item["doc"]):
+                res.count("r2_failure_limit_reached_by_the_last_operation_of_a_phase")
             after = False
             for e, n in zip(events, names):
                 if n == "PhaseFinished":
@@ -175,6 +235,13 @@ def judge(item: dict, run: Any, r: Any, res: Result, current_item: dict) -> None
     T = r.stop_event_set_at
     if env is not None and T is not None:
         reached = True
+        stateful_times = [x.time for x in r.exchanges if x.thread.startswith("schemathesis_stateful")]
+        if env == "stop" and stateful_times and min(stateful_times) < T and any(t > T for t in r.put_times.values()):
+            res.count("r2_stop_requested_while_a_stateful_sequence_was_running")
+        last_phase = _PHASE_EVENT_NAME[item["phases"][-1]]
+        if len(item["phases"]) > 1 and r.stop_after_event is not None and not any(
+                n == "PhaseStarted" and _phase_name(e) == last_phase for e, n in list(zip(events, names))[: r.stop_after_event + 1]):
+            res.count("r2_stop_requested_with_phases_still_to_come")
         for e, n, t in zip(events, names, r.event_times):
             # a scenario is *started* when its worker announces it (queues the event), not when the consumer reads it:
             # workers may run ahead of the consumer, and events queued before the stop request are still delivered
@@ -188,18 +255,28 @@ def judge(item: dict, run: Any, r: Any, res: Result, current_item: dict) -> None
         for th, n in per_thread.items():
             if n > 1:
                 bad("more_than_one_request_per_worker_after_stop", thread=re.sub(r"_\d+$", "", th), sent=n)
-    # (v) unique inputs (unit phases; per operation)
+    # (v) unique inputs (unit phases: per operation; stateful phase: per operation within ONE sequence - a later sequence
+    # has to repeat the requests that build its state - where a sequence is what was sent between the moments two
+    # consecutive ScenarioStarted events of the phase were announced by the state-machine thread)
     if item.get("unique"):
         seen: dict[tuple, int] = {}
+        starts = sorted(r.put_times.get(id(e), t) for e, n, t in zip(events, names, r.event_times)
+                        if n == "ScenarioStarted" and _phase_name(e) == "STATEFUL_TESTING")
         for x in r.exchanges:
-            k = (_operation_of(item["doc"], x),) + x.key()
+            if x.thread.startswith("schemathesis_stateful"):
+                res.count("r2_stateful_requests_judged_for_uniqueness")
+                sequence = sum(1 for t in starts if t <= x.time)
+                k = (_operation_of(item["doc"], x), "sequence", sequence) + x.key()
+            else:
+                k = (_operation_of(item["doc"], x),) + x.key()
             seen[k] = seen.get(k, 0) + 1
         dup = {k: n for k, n in seen.items() if n > 1}
         if seen:
             reached = True
         if dup:
             k = next(iter(dup))
-            bad("duplicate_request_with_unique_inputs", operation=k[0], url=k[2], times=dup[k])
+            bad("duplicate_request_with_unique_inputs", operation=k[0], url=k[-3], times=dup[k],
+                phase="STATEFUL_TESTING" if "sequence" in k[:2] else "unit")
     if reached:
         res.nontriv([item, [(x.method, x.url) for x in r.exchanges], ee.events_brief(events)])
 
@@ -239,4 +316,9 @@ def vacuity(total: Result, tier: str) -> list[str]:
     out = []
     if len(total.nontrivial) < 10:
         out.append("fewer than 10 distinct executions in which a limit was reached or a stop requested")
+    for key in ("r2_fuzzing_requests_counted_in_a_run_of_several_phases", "r2_failure_limit_reached_in_the_last_of_several_phases",
+                "r2_failure_limit_reached_by_the_last_operation_of_a_phase", "r2_stop_requested_while_a_stateful_sequence_was_running",
+                "r2_stop_requested_with_phases_still_to_come", "r2_stateful_requests_judged_for_uniqueness"):
+        if not total.counters.get(key):
+            out.append(f"review-round-2 shape never exercised: {key}")
     return out
